@@ -112,7 +112,7 @@ EXPORT errno_t _strcpyfldin_s_chk(char *dest, rsize_t dmax, const char *src,
     if (dest < src) {
         overlap_bumper = src;
 
-        while (dmax > 0 && *src) {
+        while (dmax > 0 && slen > 0 && *src) {
 
             if (unlikely(dest == overlap_bumper)) {
                 handle_error(orig_dest, orig_dmax,
@@ -121,12 +121,13 @@ EXPORT errno_t _strcpyfldin_s_chk(char *dest, rsize_t dmax, const char *src,
             }
 
             dmax--;
+            slen--;
             *dest++ = *src++;
         }
     } else {
         overlap_bumper = dest;
 
-        while (dmax > 0 && *src) {
+        while (dmax > 0 && slen > 0 && *src) {
 
             if (unlikely(src == overlap_bumper)) {
                 handle_error(orig_dest, orig_dmax,
@@ -135,6 +136,7 @@ EXPORT errno_t _strcpyfldin_s_chk(char *dest, rsize_t dmax, const char *src,
             }
 
             dmax--;
+            slen--;
             *dest++ = *src++;
         }
     }
